@@ -933,6 +933,54 @@ def sec_misc(ctx, rng, case):
         ctx.sample({"routine": "pauli_string", "letters": letters, "kind": kind, "found": res is not None})
 
 
+K_PARAM_SQISW = "C15:parameterized_2q_op_to_sqrt_iswap_operations:complex-angle-at-odd-integer-exponent"
+
+
+def sec_param_sqrt_iswap(ctx, rng, case):
+    """parameterized_2q_op_to_sqrt_iswap_operations: the symbolic decomposition, resolved at any value, rebuilds the gate"""
+    import cirq
+    import sympy
+
+    fam = ["CZPow", "SwapPow", "ISwapPow", "FSim"][case % 4]
+    t, s_ = sympy.Symbol("t"), sympy.Symbol("s")
+    q0, q1 = _qubits(rng, 2)
+    inv = bool(rng.integers(2))
+    special = [0.0, 1.0, -1.0, 2.0, 3.0, 0.5, -0.5, 0.25, 1.5, 4.0]
+    val = float(special[int(rng.integers(len(special)))]) if rng.random() < 0.6 else float(rng.uniform(-3, 3))
+    val2 = float(rng.uniform(-math.pi, math.pi)) if rng.random() < 0.6 else float([0.0, math.pi / 2, math.pi, -math.pi / 2][int(rng.integers(4))])
+    if fam == "FSim":
+        sym_gate = cirq.FSimGate(theta=t, phi=s_)
+        want = G.fsim(val, val2)
+    else:
+        cls = {"CZPow": cirq.CZPowGate, "SwapPow": cirq.SwapPowGate, "ISwapPow": cirq.ISwapPowGate}[fam]
+        sym_gate = cls(exponent=t)
+        want = {"CZPow": G.czpow_doc, "SwapPow": G.swappow_doc, "ISwapPow": G.iswappow_doc}[fam](val)
+    wit = dict(family=fam, t=val, s=val2 if fam == "FSim" else None, use_sqrt_iswap_inv=inv, qubits=[repr(q0), repr(q1)])
+    ops = cirq.parameterized_2q_op_to_sqrt_iswap_operations(sym_gate.on(q0, q1), use_sqrt_iswap_inv=inv)
+    ops = list(cirq.flatten_to_ops(ops))
+    two = [o for o in ops if len(o.qubits) == 2]
+    target = cirq.SQRT_ISWAP_INV if inv else cirq.SQRT_ISWAP
+    ctx.check(all(o.gate == target for o in two), "param_sqrt_iswap:target-gates-only", "C15:parameterized_2q_op_to_sqrt_iswap_operations:foreign-two-qubit-gate",
+              "two-qubit gates %r" % sorted({str(o.gate) for o in two}), **wit)
+    try:
+        resolved = [cirq.resolve_parameters(o, {"t": val, "s": val2}) for o in ops]
+        u = P.lower(resolved, [q0, q1])
+    except ValueError as e:
+        if "Complex exponent" not in str(e):
+            raise
+        # every family reaches _cphase_symbols_to_sqrt_iswap (SWAP**t through CZ**-t, FSim through CZ**(-phi/pi)); the angle that
+        # makes sqrt(2)*sin(theta'/4) round above 1 is theta = pi, i.e. an odd number of CZ half turns
+        turns = val if fam in ("CZPow", "SwapPow") else (-val2 / math.pi if fam == "FSim" else None)
+        odd = turns is not None and abs(turns - round(turns)) < 1e-9 and int(round(turns)) % 2 == 1
+        ctx.check(False, "param_sqrt_iswap:rebuild", K_PARAM_SQISW if odd else "C15:parameterized_2q_op_to_sqrt_iswap_operations:complex-angle",
+                  "resolving the decomposition at t=%r raises %s" % (val, str(e)[:120]), **wit)
+        return
+    d = L.phase_diff(u, want)
+    ctx.check(d <= 1e-6, "param_sqrt_iswap:rebuild", "C15:parameterized_2q_op_to_sqrt_iswap_operations:wrong-unitary",
+              lambda: "resolved decomposition differs from the gate by %.3g up to phase" % d, **wit)
+    ctx.distinct(("param_sqrt_iswap", fam, round(val, 9), round(val2, 9) if fam == "FSim" else None, inv), nontrivial=not L.phase_equal(want, np.eye(4), 1e-6))
+
+
 SECTIONS = [
     ("kak", sec_kak, 7000, 85000, 12.0),
     ("linalg", sec_linalg, 14000, 170000, 3.0),
@@ -942,4 +990,5 @@ SECTIONS = [
     ("other2q", sec_other2q, 6000, 68000, 8.0),
     ("multiq", sec_multiq, 2400, 17000, 14.0),
     ("misc", sec_misc, 10000, 120000, 3.0),
+    ("param_sqrt_iswap", sec_param_sqrt_iswap, 800, 10000, 1.5),
 ]
